@@ -326,4 +326,11 @@ def rule_no_subscriber(ctx):
                 'requester and responder mark different flags (%s)' % sorted(inbound_seen))
 
 
-RULES = [('C10.a', rule_a), ('C10.b', rule_b), ('C10.c', rule_c), ('C05.a', rule_order), ('C03.c', rule_d), ('C10.d', rule_e), ('C10.a', rule_no_subscriber), ('C06.e', rule_small_publishers)]
+
+def rule_adapter_cancellation(ctx):
+    """A caller of the awaitable adapter that gives up (timeout, cancellation) releases the stream at both ends: the adapter awaits the socket's future itself, not through shield(), so the cancellation reaches the future whose done-callback sends CANCEL and finishes the stream (shared C01.h delegations)."""
+    from .awaitable import rule_delegations
+    rule_delegations(ctx, 'C01.h')
+
+
+RULES = [('C10.a', rule_a), ('C10.b', rule_b), ('C10.c', rule_c), ('C05.a', rule_order), ('C03.c', rule_d), ('C10.d', rule_e), ('C10.a', rule_no_subscriber), ('C06.e', rule_small_publishers), ('C01.h', rule_adapter_cancellation)]
